@@ -22,6 +22,7 @@ type Optimizer struct {
 	constants   map[string]ast.Literal // Track constant values for variables
 	expressions map[string]string      // Track expression -> variable name for CSE
 	copies      map[string]string      // Track variable copies (x = y means copies[x] = y)
+	declared    map[string]bool        // Names declared by the statements optimized so far
 }
 
 // NewOptimizer creates a new optimizer instance
@@ -31,6 +32,7 @@ func NewOptimizer(level OptimizationLevel) *Optimizer {
 		constants:   make(map[string]ast.Literal),
 		expressions: make(map[string]string),
 		copies:      make(map[string]string),
+		declared:    make(map[string]bool),
 	}
 }
 
@@ -192,6 +194,7 @@ func (o *Optimizer) OptimizeStatements(stmts []ast.Statement) []ast.Statement {
 
 		switch s := stmt.(type) {
 		case *ast.AssignStatement:
+			o.declared[s.Target] = true
 			// Optimize the value expression
 			optimizedValue := o.OptimizeExpression(s.Value)
 			// The target changes here: nothing that was known through its old
@@ -402,7 +405,10 @@ func (o *Optimizer) OptimizeStatements(stmts []ast.Statement) []ast.Statement {
 						// An assignment is invariant if:
 						// 1. Its RHS doesn't depend on modified variables
 						// 2. The target variable is not used in the loop condition
-						if isExprInvariant(assignStmt.Value, modifiedVars) && !conditionVars[assignStmt.Target] {
+						// 3. The name is not visible in front of the loop: the body's
+						//    declaration is then a variable of its own (it shadows), and
+						//    moving it out would redeclare or overwrite the outer one
+						if isExprInvariant(assignStmt.Value, modifiedVars) && !conditionVars[assignStmt.Target] && !o.declared[assignStmt.Target] {
 							// This is loop-invariant, move it out
 							invariantStmts = append(invariantStmts, assignStmt)
 							continue
